@@ -148,59 +148,77 @@ def checkSchedule (m : Mon) (pre post : State) : Mon × List Fail :=
     let mm2 : Mon := if pausedNow ∧ !(mm1.pausedSince.contains id) then { mm1 with pausedSince := id :: mm1.pausedSince } else mm1
     (mm2, acc.2 ++ f1 ++ f2 ++ f3 ++ f4 ++ f5 ++ f6 ++ f7 ++ f8)) (m, [])
 
-/-- one monitor step -/
-def check (m : Mon) (pre : State) (op : Op) (accepted : Bool) (post : State) : Mon × List Fail :=
+/-! ### one monitor step, clause group by clause group
+
+`check` is the composition of the five parts below (the soundness theorems of
+`Proofs/ServiceMonitor*.lean` are stated part by part). -/
+
+/-- (outcome automaton) every request leaves the active set at most once: by an answer of its addressee
+or by expiry at its expiration height; requests enter only in an end block, each id once -/
+def outcomeStep (m : Mon) (pre : State) (op : Op) (accepted : Bool) (post : State) : Mon × List Fail :=
   let lft := left pre post
   let ent := entered pre post
   let newR := newResponses pre post
-  let isNext := match op with | .next _ => accepted | _ => false
-  -- (outcome automaton)
-  let (m1, f1) : Mon × List Fail :=
-    match op, accepted with
-    | .respond provider (some rid) _ _ _, true =>
-      let ok := pre.active.contains rid && ((AMap.get? pre.reqs rid).map (·.provider)) == some provider &&
-                lft == [rid] && ent.isEmpty && newR == [rid] &&
-                ((AMap.get? post.resps rid).map (·.provider)) == some provider &&
-                !(m.answered.contains rid) && !(m.expired.contains rid)
-      ({ m with answered := rid :: m.answered }, if ok then [] else [{ clause := "answered-once-by-addressee-while-active" }])
-    | .next _, true =>
-      let expOk := pre.active.all fun r => (lft.contains r) == (expHOf pre r == some pre.height)
-      let entOk := ent.all fun r => decide (r.h = pre.height) && !(m.seen.contains r) && (AMap.contains post.reqs r)
-      let fresh := lft.all fun r => !(m.answered.contains r) && !(m.expired.contains r)
-      ({ m with expired := lft ++ m.expired },
-       (if expOk then [] else [{ clause := "expired-exactly-at-expiration-height" : Fail }]) ++
-       (if entOk then [] else [{ clause := "request-issued-once" : Fail }]) ++
-       (if fresh ∧ newR.isEmpty then [] else [{ clause := "one-outcome-per-request" : Fail }]))
-    | .skip _ _, true => (m, [{ clause := "multi-block-step-not-monitorable" }])
-    | _, _ =>
-      (m, if lft.isEmpty ∧ ent.isEmpty ∧ newR.isEmpty then [] else [{ clause := "outcome-only-by-answer-or-expiry" }])
-  let m2 := { m1 with seen := ent ++ m1.seen }
-  -- (authority)
-  let f2 : List Fail :=
-    if !accepted then [] else
-    match op with
-    | .pause c id | .start c id | .kill c id | .updateCtx c id _ _ _ _ _ =>
-      if authorityOk pre c id true then [] else [{ clause := "only-consumer-controls-context" }]
-    | .mpause c id | .mstart c id | .mkill c id | .mupdate c id _ _ _ _ _ _ =>
-      if authorityOk pre c id false then [] else [{ clause := "only-consumer-controls-context" }]
-    | _ => []
-  -- (schedule)
-  let (m3, f3) : Mon × List Fail :=
-    if isNext then checkSchedule m2 pre post
-    else
-      let mm : Mon := match op, accepted with
-        | .updateCtx _ id _ _ _ _ _, true | .mupdate _ id _ _ _ _ _ _, true =>
-          { m2 with modified := id.toLower :: m2.modified }
-        | .pause _ id, true | .mpause _ id, true => { m2 with pausedSince := id.toLower :: m2.pausedSince }
-        | _, _ => m2
-      (mm, if countersSame pre post then [] else [{ clause := "batch-only-in-end-block" }])
-  -- contexts created paused count as "paused since"
-  let m4 : Mon := match op, accepted with
-    | .mcall .., true =>
-      { m3 with pausedSince := ((post.ctxs.filter (fun e => !(AMap.contains pre.ctxs e.1) && e.2.state = .paused)).map (·.1)) ++ m3.pausedSince }
-    | _, _ => m3
-  -- (callbacks)
-  let f4 := if callbacksOk pre post isNext then [] else [{ clause := "callback-once-per-batch" : Fail }]
-  (m4, f1 ++ f2 ++ f3 ++ f4)
+  match op, accepted with
+  | .respond provider (some rid) _ _ _, true =>
+    let ok := pre.active.contains rid && ((AMap.get? pre.reqs rid).map (·.provider)) == some provider &&
+              lft == [rid] && ent.isEmpty && newR == [rid] &&
+              ((AMap.get? post.resps rid).map (·.provider)) == some provider &&
+              !(m.answered.contains rid) && !(m.expired.contains rid)
+    ({ m with answered := rid :: m.answered }, if ok then [] else [{ clause := "answered-once-by-addressee-while-active" }])
+  | .next _, true =>
+    let expOk := pre.active.all fun r => (lft.contains r) == (expHOf pre r == some pre.height)
+    let entOk := ent.all fun r => decide (r.h = pre.height) && !(m.seen.contains r) && (AMap.contains post.reqs r)
+    let fresh := lft.all fun r => !(m.answered.contains r) && !(m.expired.contains r)
+    ({ m with expired := lft ++ m.expired },
+     (if expOk then [] else [{ clause := "expired-exactly-at-expiration-height" : Fail }]) ++
+     (if entOk then [] else [{ clause := "request-issued-once" : Fail }]) ++
+     (if fresh ∧ newR.isEmpty then [] else [{ clause := "one-outcome-per-request" : Fail }]))
+  | .skip _ _, true => (m, [{ clause := "multi-block-step-not-monitorable" }])
+  | _, _ =>
+    (m, if lft.isEmpty ∧ ent.isEmpty ∧ newR.isEmpty then [] else [{ clause := "outcome-only-by-answer-or-expiry" }])
+
+/-- (authority) only the consumer controls a context -/
+def authorityFails (pre : State) (op : Op) (accepted : Bool) : List Fail :=
+  if !accepted then [] else
+  match op with
+  | .pause c id | .start c id | .kill c id | .updateCtx c id _ _ _ _ _ =>
+    if authorityOk pre c id true then [] else [{ clause := "only-consumer-controls-context" }]
+  | .mpause c id | .mstart c id | .mkill c id | .mupdate c id _ _ _ _ _ _ =>
+    if authorityOk pre c id false then [] else [{ clause := "only-consumer-controls-context" }]
+  | _ => []
+
+/-- an accepted end block -/
+def isNextOp (op : Op) (accepted : Bool) : Bool := match op with | .next _ => accepted | _ => false
+
+/-- (schedule) batches are issued only in an end block, following the schedule -/
+def scheduleStep (m2 : Mon) (pre : State) (op : Op) (accepted : Bool) (post : State) : Mon × List Fail :=
+  if isNextOp op accepted then checkSchedule m2 pre post
+  else
+    let mm : Mon := match op, accepted with
+      | .updateCtx _ id _ _ _ _ _, true | .mupdate _ id _ _ _ _ _ _, true =>
+        { m2 with modified := id.toLower :: m2.modified }
+      | .pause _ id, true | .mpause _ id, true => { m2 with pausedSince := id.toLower :: m2.pausedSince }
+      | _, _ => m2
+    (mm, if countersSame pre post then [] else [{ clause := "batch-only-in-end-block" }])
+
+/-- contexts created paused count as "paused since" -/
+def createdPaused (m3 : Mon) (pre : State) (op : Op) (accepted : Bool) (post : State) : Mon :=
+  match op, accepted with
+  | .mcall .., true =>
+    { m3 with pausedSince := ((post.ctxs.filter (fun e => !(AMap.contains pre.ctxs e.1) && e.2.state = .paused)).map (·.1)) ++ m3.pausedSince }
+  | _, _ => m3
+
+/-- (callbacks) -/
+def callbackFails (pre post : State) (isNext : Bool) : List Fail :=
+  if callbacksOk pre post isNext then [] else [{ clause := "callback-once-per-batch" : Fail }]
+
+/-- one monitor step -/
+def check (m : Mon) (pre : State) (op : Op) (accepted : Bool) (post : State) : Mon × List Fail :=
+  let o := outcomeStep m pre op accepted post
+  let m2 : Mon := { o.1 with seen := entered pre post ++ o.1.seen }
+  let sch := scheduleStep m2 pre op accepted post
+  (createdPaused sch.1 pre op accepted post,
+   o.2 ++ authorityFails pre op accepted ++ sch.2 ++ callbackFails pre post (isNextOp op accepted))
 
 end Irismod.Spec.C08
